@@ -61,6 +61,7 @@ def step : List String → String
     | _, _ => "bad-op"
   | ["newval"] => "skip"
   | ["jailval", _] => "skip"
+  | ["tick"] => "skip"
   | ["unjailval", _] => "skip"
   | _ => "bad-op"
 
